@@ -1,36 +1,18 @@
-//! Shared scenario driver of the C12 / C13 harness binaries (included by `#[path]` from
-//! src/bin/c12.rs and src/bin/c13.rs).
+//! The `pool` and `acc` surfaces of the C12 / C13 harness: servlin::internal::{TokenSet, Token}
+//! driven directly and servlin::internal::accept_loop driven directly with a harness-supplied
+//! conn_handler.  Needs src/srv_common.rs (forecast, waiting, main loop) as `crate::srv_common`.
 //!
-//! Case syntax (one case per line):
-//!   pool <n> <op>*           op = T (take) | Y (try-take with timeout) | D<i> (drop i-th live token)
-//!   acc  <n> <cmd>*          accept_loop driven directly; conn_handler keeps (Token, stream)
-//!   srv  <n> <cmd>*          HttpServerBuilder::max_conns(n).spawn(gated handler)
-//!     cmd = c            a client connects (srv: and sends a gated request)
-//!         | e<k>[:kind]  connection k ends (acc: the handler drops the Token; srv: by `kind`)
-//!         | r            the permit is revoked
-//!         | q<k>         client k sends a (the rest of a) further request        (srv)
-//!         | l<k>         the gate of the handler running for client k opens (200) (srv)
-//!         | p<k> | u<k>  client k sends half a request head / a head and part of the body (srv)
-//!         | f<e>         (acc, thorough) accept() fails with EMFILE for a while
-//! Observation per command: `a,g,h,t,d,x,s,l` =
-//!   admitted so far, tokens held by handlers (acc) / -, handlers entered now, handler entries so
-//!   far, complete responses read by clients, connections closed by the server on its own,
-//!   stopped signal received, listening.  Fields a harness cannot see are printed as `-`.
+//!   pool <n> <op>*   op = T (take) | Y (try-take with timeout) | D<i> (drop i-th live token)
+//!   acc  <n> <cmd>*  cmd = c (client connects) | e<k> (the handler drops the Token of connection k)
+//!                        | r (revoke) | f<e> (thorough: accept() fails with EMFILE for a while)
+#![allow(dead_code)]
+use crate::srv_common::*;
 use permit::Permit;
 use servlin::internal::{accept_loop, listen_127_0_0_1_any_port, Token, TokenSet};
-use servlin::{HttpServerBuilder, Request, Response};
-use std::collections::HashMap;
-use std::io::{BufRead, Read, Write};
-use std::net::{Shutdown, SocketAddr, TcpStream};
-use std::sync::atomic::{AtomicBool, AtomicUsize, Ordering::SeqCst};
-use std::sync::{Arc, Condvar, Mutex};
-use std::time::{Duration, Instant};
-
-const SHORT: Duration = Duration::from_micros(150);
-const STEP_DEADLINE: Duration = Duration::from_millis(2500);
-const CASE_DEADLINE: Duration = Duration::from_secs(60);
-// once an attempt has deviated from the forecast, later steps of that attempt wait less
-const AFTER_DEVIATION: Duration = Duration::from_millis(250);
+use std::net::{SocketAddr, TcpStream};
+use std::sync::atomic::{AtomicUsize, Ordering::SeqCst};
+use std::sync::{Arc, Mutex};
+use std::time::Duration;
 
 // ------------------------------------------------------------------------------------------ pool
 
@@ -90,180 +72,6 @@ fn pool_case(toks: &[String]) -> String {
     drop(live);
     let p2 = drain(&ts);
     format!("{} ; {} {}", out.join(" "), p1, p2)
-}
-
-// ------------------------------------------------------------------------------------ prediction
-// A deliberately naive forecast of the settled observation, used ONLY to end a wait early (and to
-// decide whether a case is re-run); what is printed is always what was actually observed.
-
-#[derive(Clone, PartialEq, Eq, Debug)]
-struct Obs {
-    admitted: Option<usize>,
-    gauge: Option<usize>,
-    handlers: usize,
-    entries: usize,
-    done: usize,
-    closed: usize,
-    stopped: bool,
-    listening: bool,
-}
-impl Obs {
-    fn show(&self) -> String {
-        let o = |x: Option<usize>| x.map_or("-".to_string(), |v| v.to_string());
-        format!(
-            "{},{},{},{},{},{},{},{}",
-            o(self.admitted),
-            o(self.gauge),
-            self.handlers,
-            self.entries,
-            self.done,
-            self.closed,
-            u8::from(self.stopped),
-            u8::from(self.listening)
-        )
-    }
-}
-
-#[derive(Clone, Copy, PartialEq)]
-enum Ph {
-    Head,
-    Idle,
-    Handler,
-    Writing,
-}
-struct Pred {
-    n: usize,
-    full: bool,
-    pending: Vec<usize>,
-    live: Vec<(usize, Ph)>,
-    unread: Vec<usize>,
-    admitted: usize,
-    entries: usize,
-    done: usize,
-    closed: usize,
-    revoked: bool,
-    stopped: bool,
-    nclients: usize,
-}
-impl Pred {
-    fn new(n: usize, full: bool) -> Self {
-        Pred { n, full, pending: vec![], live: vec![], unread: vec![], admitted: 0, entries: 0, done: 0, closed: 0, revoked: false, stopped: false, nclients: 0 }
-    }
-    fn settle(&mut self) {
-        loop {
-            let mut progress = false;
-            if self.revoked {
-                if !self.stopped {
-                    self.stopped = true;
-                    progress = true;
-                }
-            } else {
-                while self.live.len() < self.n && !self.pending.is_empty() {
-                    let id = self.pending.remove(0);
-                    self.live.push((id, Ph::Head));
-                    self.admitted += 1;
-                    progress = true;
-                }
-            }
-            if self.full {
-                let mut i = 0;
-                while i < self.live.len() {
-                    let (id, ph) = self.live[i];
-                    match ph {
-                        Ph::Head => {
-                            if self.revoked {
-                                self.live.remove(i);
-                                self.closed += 1;
-                                progress = true;
-                                continue;
-                            }
-                            self.live[i].1 = Ph::Idle;
-                            progress = true;
-                        }
-                        Ph::Idle => {
-                            if let Some(p) = self.unread.iter().position(|x| *x == id) {
-                                self.unread.remove(p);
-                                self.live[i].1 = Ph::Handler;
-                                self.entries += 1;
-                                progress = true;
-                            }
-                        }
-                        Ph::Writing => {
-                            self.live[i].1 = Ph::Head;
-                            self.done += 1;
-                            progress = true;
-                        }
-                        Ph::Handler => {}
-                    }
-                    i += 1;
-                }
-            }
-            if !progress {
-                break;
-            }
-        }
-    }
-    fn connect(&mut self) {
-        let id = self.nclients;
-        self.nclients += 1;
-        self.pending.push(id);
-        if self.full {
-            self.unread.push(id);
-        }
-        self.settle();
-    }
-    fn end(&mut self, k: usize) {
-        if let Some(p) = self.live.iter().position(|x| x.0 == k) {
-            self.live.remove(p);
-        }
-        self.settle();
-    }
-    fn revoke(&mut self) {
-        self.revoked = true;
-        self.settle();
-    }
-    fn request(&mut self, k: usize) {
-        self.unread.push(k);
-        self.settle();
-    }
-    fn release(&mut self, k: usize) {
-        if let Some(p) = self.live.iter().position(|x| x.0 == k && x.1 == Ph::Handler) {
-            self.live[p].1 = Ph::Writing;
-        }
-        self.settle();
-    }
-    fn phase(&self, k: usize) -> Option<Ph> {
-        self.live.iter().find(|x| x.0 == k).map(|x| x.1)
-    }
-    fn obs(&self) -> Obs {
-        Obs {
-            admitted: if self.full { None } else { Some(self.admitted) },
-            gauge: if self.full { None } else { Some(self.live.len()) },
-            handlers: self.live.iter().filter(|x| x.1 == Ph::Handler).count(),
-            entries: self.entries,
-            done: self.done,
-            closed: if self.full { self.closed + if self.stopped { self.pending.len() } else { 0 } } else { 0 },
-            stopped: self.stopped,
-            listening: !self.stopped,
-        }
-    }
-}
-
-fn wait_for(mut f: impl FnMut() -> bool, deadline: Duration) -> bool {
-    let t0 = Instant::now();
-    loop {
-        if f() {
-            return true;
-        }
-        if t0.elapsed() > deadline {
-            return false;
-        }
-        std::thread::sleep(Duration::from_micros(300));
-    }
-}
-
-fn probe_listening(addr: SocketAddr) -> bool {
-    TcpStream::connect_timeout(&addr, Duration::from_millis(500)).is_ok()
 }
 
 // ------------------------------------------------------------------------ accept_loop, direct
@@ -395,445 +203,18 @@ fn acc_case(toks: &[String]) -> (String, bool) {
     (format!("{} ; {} ; over={}", out.join(" "), scratch[0], over), matched)
 }
 
-// ------------------------------------------------------------------------------- full server
-
-#[derive(Clone, Copy, PartialEq, Debug)]
-enum GateCmd {
-    Ok,
-    Err500,
-    Panic,
-    Drop,
-}
-struct Gates {
-    cmds: Mutex<HashMap<usize, GateCmd>>,
-    cv: Condvar,
-    entered: Mutex<Vec<usize>>,
-    entries: AtomicUsize,
-    maxh: AtomicUsize,
-    open_all: AtomicBool,
-}
-struct ClientShared {
-    responses: AtomicUsize,
-    eof: AtomicBool,
-}
-struct Client {
-    stream: Option<TcpStream>,
-    sh: Arc<ClientShared>,
-    seq: usize,
-    partial: Option<Vec<u8>>, // rest of a request whose first part was sent
-    ended: bool,
-    frozen: usize,
-    refused: bool,
+fn pool_runner(toks: &[String]) -> (String, bool) {
+    (pool_case(toks), true)
 }
 
-fn reader_thread(mut s: TcpStream, sh: Arc<ClientShared>) {
-    std::thread::spawn(move || {
-        let mut buf: Vec<u8> = Vec::new();
-        let mut tmp = [0u8; 4096];
-        loop {
-            match s.read(&mut tmp) {
-                Ok(0) | Err(_) => {
-                    sh.eof.store(true, SeqCst);
-                    return;
-                }
-                Ok(k) => buf.extend_from_slice(&tmp[..k]),
-            }
-            // count complete responses (content-length framing)
-            loop {
-                let Some(p) = buf.windows(4).position(|w| w == b"\r\n\r\n") else { break };
-                let head = String::from_utf8_lossy(&buf[..p]).to_ascii_lowercase();
-                let cl: usize = head
-                    .split("\r\n")
-                    .find_map(|l| l.strip_prefix("content-length:").map(|v| v.trim().parse::<usize>().unwrap_or(0)))
-                    .unwrap_or(0);
-                if buf.len() < p + 4 + cl {
-                    break;
-                }
-                buf.drain(..p + 4 + cl);
-                sh.responses.fetch_add(1, SeqCst);
-            }
-        }
-    });
-}
-
-fn req_bytes(id: usize, seq: usize) -> Vec<u8> {
-    format!("GET /g/{id}/{seq} HTTP/1.1\r\n\r\n").into_bytes()
-}
-
-fn srv_case(toks: &[String]) -> (String, bool) {
-    let n: usize = toks[1].parse().unwrap();
-    let executor = safina::executor::Executor::new(2, 12).unwrap();
-    let gates = Arc::new(Gates { cmds: Mutex::new(HashMap::new()), cv: Condvar::new(), entered: Mutex::new(Vec::new()), entries: AtomicUsize::new(0), maxh: AtomicUsize::new(0), open_all: AtomicBool::new(false) });
-    let g2 = gates.clone();
-    let handler = move |req: Request| -> Response {
-        let path = req.url().path().to_string();
-        let id: usize = path.split('/').nth(2).and_then(|x| x.parse().ok()).unwrap_or(9999);
-        {
-            let mut e = g2.entered.lock().unwrap();
-            e.push(id);
-            let mut distinct = e.clone();
-            distinct.sort_unstable();
-            distinct.dedup();
-            g2.maxh.fetch_max(distinct.len(), SeqCst);
-        }
-        g2.entries.fetch_add(1, SeqCst);
-        let cmd = {
-            let mut c = g2.cmds.lock().unwrap();
-            loop {
-                if let Some(x) = c.remove(&id) {
-                    break x;
-                }
-                if g2.open_all.load(SeqCst) {
-                    break GateCmd::Ok;
-                }
-                c = g2.cv.wait_timeout(c, Duration::from_millis(50)).unwrap().0;
-            }
-        };
-        {
-            let mut e = g2.entered.lock().unwrap();
-            if let Some(p) = e.iter().position(|x| *x == id) {
-                e.remove(p);
-            }
-        }
-        match cmd {
-            GateCmd::Ok => Response::text(200, "ok"),
-            GateCmd::Err500 => Response::text(500, "err"),
-            GateCmd::Panic => panic!("handler panic on command"),
-            GateCmd::Drop => Response::drop_connection(),
-        }
-    };
-    let top = Permit::new();
-    let sub = top.new_sub();
-    let (addr, mut stopped_rx) = executor
-        .block_on(async move { HttpServerBuilder::new().max_conns(n).permit(sub).spawn(handler).await })
-        .unwrap();
-    let mut clients: Vec<Client> = Vec::new();
-    let mut pred = Pred::new(n, true);
-    let mut stopped = false;
-    let mut matched = true;
-    let mut out: Vec<String> = Vec::new();
-
-    let release = |k: usize, c: GateCmd| {
-        gates.cmds.lock().unwrap().insert(k, c);
-        gates.cv.notify_all();
-    };
-    let poll_stop = |stopped: &mut bool, rx: &mut safina::sync::Receiver<()>| {
-        if !*stopped && rx.try_recv().is_ok() {
-            *stopped = true;
-        }
-    };
-    let snapshot = |clients: &Vec<Client>, stopped: bool, probe: bool| -> Obs {
-        let done: usize = clients.iter().map(|c| if c.ended { c.frozen } else { c.sh.responses.load(SeqCst) }).sum();
-        let closed = clients.iter().filter(|c| !c.ended && (c.refused || c.sh.eof.load(SeqCst))).count();
-        Obs {
-            admitted: None,
-            gauge: None,
-            handlers: {
-                let e = gates.entered.lock().unwrap();
-                let mut d = e.clone();
-                d.sort_unstable();
-                d.dedup();
-                d.len()
-            },
-            entries: gates.entries.load(SeqCst),
-            done,
-            closed,
-            stopped,
-            listening: if probe { probe_listening(addr) } else { true },
-        }
-    };
-    macro_rules! step {
-        () => {{
-            let want = pred.obs();
-            let ok = wait_for(
-                || {
-                    if want.stopped {
-                        poll_stop(&mut stopped, &mut stopped_rx);
-                    }
-                    let mut o = snapshot(&clients, stopped, false);
-                    o.listening = want.listening;
-                    o == want
-                },
-                if matched { STEP_DEADLINE } else { AFTER_DEVIATION },
-            );
-            std::thread::sleep(Duration::from_millis(3));
-            poll_stop(&mut stopped, &mut stopped_rx);
-            let mut o = snapshot(&clients, stopped, false);
-            o.listening = if stopped { probe_listening(addr) } else { true };
-            if !ok || o != want {
-                matched = false;
-            }
-            o
-        }};
+pub fn full_lookup(kind: &str) -> Option<(Runner, bool)> {
+    match kind {
+        "pool" => Some((pool_runner as Runner, false)),
+        "acc" => Some((acc_case as Runner, true)),
+        other => srv_lookup(other),
     }
-    let end_client = |c: &mut Client| {
-        c.frozen = c.sh.responses.load(SeqCst);
-        c.ended = true;
-    };
-    for c in &toks[2..] {
-        let c = c.as_str();
-        if c == "c" {
-            let id = clients.len();
-            let sh = Arc::new(ClientShared { responses: AtomicUsize::new(0), eof: AtomicBool::new(false) });
-            let stream = TcpStream::connect_timeout(&addr, Duration::from_millis(1000)).ok();
-            let refused = stream.is_none();
-            if let Some(s) = &stream {
-                let _ = s.set_nodelay(true);
-                let _ = (&*s).write_all(&req_bytes(id, 0));
-                reader_thread(s.try_clone().unwrap(), sh.clone());
-            }
-            clients.push(Client { stream, sh, seq: 1, partial: None, ended: false, frozen: 0, refused });
-            pred.connect();
-        } else if c == "r" {
-            top.revoke();
-            pred.revoke();
-        } else if let Some(k) = c.strip_prefix('l') {
-            let k: usize = k.parse().unwrap();
-            release(k, GateCmd::Ok);
-            pred.release(k);
-        } else if let Some(k) = c.strip_prefix('q') {
-            let k: usize = k.parse().unwrap();
-            let cl = &mut clients[k];
-            let bytes = match cl.partial.take() {
-                Some(rest) => rest,
-                None => {
-                    let b = req_bytes(k, cl.seq);
-                    b
-                }
-            };
-            cl.seq += 1;
-            if let Some(s) = &cl.stream {
-                let _ = (&*s).write_all(&bytes);
-            }
-            pred.request(k);
-        } else if let Some(k) = c.strip_prefix('p') {
-            let k: usize = k.parse().unwrap();
-            let cl = &mut clients[k];
-            let b = req_bytes(k, cl.seq);
-            let cut = b.len() / 2;
-            if let Some(s) = &cl.stream {
-                let _ = (&*s).write_all(&b[..cut]);
-            }
-            cl.partial = Some(b[cut..].to_vec());
-        } else if let Some(k) = c.strip_prefix('u') {
-            let k: usize = k.parse().unwrap();
-            let cl = &mut clients[k];
-            let b = format!("POST /g/{k}/{} HTTP/1.1\r\ncontent-length: 10\r\n\r\n0123456789", cl.seq).into_bytes();
-            let cut = b.len() - 6;
-            if let Some(s) = &cl.stream {
-                let _ = (&*s).write_all(&b[..cut]);
-            }
-            cl.partial = Some(b[cut..].to_vec());
-        } else if let Some(rest) = c.strip_prefix('e') {
-            let mut it = rest.split(':');
-            let k: usize = it.next().unwrap().parse().unwrap();
-            let kind = it.next().unwrap_or("close");
-            let ph = pred.phase(k);
-            let cl = &mut clients[k];
-            end_client(cl);
-            let send = |cl: &Client, b: &[u8]| {
-                if let Some(s) = &cl.stream {
-                    let _ = (&*s).write_all(b);
-                }
-            };
-            let shut = |cl: &Client| {
-                if let Some(s) = &cl.stream {
-                    let _ = s.shutdown(Shutdown::Both);
-                }
-            };
-            match (kind, ph) {
-                // while the handler is running
-                ("err500", Some(Ph::Handler)) => release(k, GateCmd::Err500),
-                ("panic", Some(Ph::Handler)) => release(k, GateCmd::Panic),
-                ("drop", Some(Ph::Handler)) => release(k, GateCmd::Drop),
-                ("okclose", Some(Ph::Handler)) => {
-                    release(k, GateCmd::Ok);
-                    let sh = cl.sh.clone();
-                    let base = cl.frozen;
-                    wait_for(|| sh.responses.load(SeqCst) > base, STEP_DEADLINE);
-                    shut(cl);
-                }
-                (_, Some(Ph::Handler)) => {
-                    // client aborts mid-request: goes away, then the handler returns
-                    shut(cl);
-                    std::thread::sleep(Duration::from_millis(2));
-                    release(k, GateCmd::Ok);
-                }
-                // while idle (waiting for a request head)
-                ("malformed", _) => send(cl, b"BAD\x01 REQUEST\r\n\r\n"),
-                ("aborthead", _) => {
-                    send(cl, b"GET /g/0/9 HT");
-                    std::thread::sleep(Duration::from_millis(2));
-                    shut(cl);
-                }
-                ("abortbody", _) => {
-                    send(cl, b"POST /g/0/9 HTTP/1.1\r\ncontent-length: 1000\r\n\r\nabc");
-                    std::thread::sleep(Duration::from_millis(2));
-                    shut(cl);
-                }
-                _ => shut(cl),
-            }
-            pred.end(k);
-        } else {
-            panic!("bad srv cmd {c}");
-        }
-        let o = step!();
-        out.push(o.show());
-    }
-    // recovery: end every live connection, then n+1 fresh clients each with a gated request
-    let live: Vec<(usize, Ph)> = pred.live.clone();
-    for (k, ph) in live {
-        let cl = &mut clients[k];
-        end_client(cl);
-        if let Some(s) = &cl.stream {
-            let _ = s.shutdown(Shutdown::Both);
-        }
-        if ph == Ph::Handler {
-            release(k, GateCmd::Ok);
-        }
-        pred.end(k);
-    }
-    for _ in 0..=n {
-        let id = clients.len();
-        let sh = Arc::new(ClientShared { responses: AtomicUsize::new(0), eof: AtomicBool::new(false) });
-        let stream = TcpStream::connect_timeout(&addr, Duration::from_millis(1000)).ok();
-        let refused = stream.is_none();
-        if let Some(s) = &stream {
-            let _ = (&*s).write_all(&req_bytes(id, 0));
-            reader_thread(s.try_clone().unwrap(), sh.clone());
-        }
-        clients.push(Client { stream, sh, seq: 1, partial: None, ended: false, frozen: 0, refused });
-        pred.connect();
-    }
-    let fin = step!();
-    let over = u8::from(gates.maxh.load(SeqCst) > n);
-    // tidy up
-    top.revoke();
-    gates.open_all.store(true, SeqCst);
-    gates.cv.notify_all();
-    for c in &clients {
-        if let Some(s) = &c.stream {
-            let _ = s.shutdown(Shutdown::Both);
-        }
-    }
-    std::thread::sleep(Duration::from_millis(5));
-    (format!("{} ; {} ; over={}", out.join(" "), fin.show(), over), matched)
-}
-
-// ------------------------------------------------------------------------------------- driver
-
-fn timing_log(line: &str) {
-    if let Ok(p) = std::env::var("SV_TIMING_LOG") {
-        if let Ok(mut f) = std::fs::OpenOptions::new().create(true).append(true).open(p) {
-            let _ = writeln!(f, "{line}");
-        }
-    }
-}
-
-fn run_one(toks: Vec<String>) -> String {
-    // every case runs in its own thread under a watchdog; a panic or a hang becomes an observation
-    let (tx, rx) = std::sync::mpsc::channel::<String>();
-    let t2 = toks.clone();
-    std::thread::spawn(move || {
-        let r = std::panic::catch_unwind(move || match t2[0].as_str() {
-            "pool" => pool_case(&t2),
-            "acc" | "srv" => {
-                // timing verdicts are three-valued: an observation that differs from the naive
-                // forecast is re-measured; only a difference seen 3 times in a row is reported.
-                let mut first: Option<String> = None;
-                let mut last = String::new();
-                for attempt in 1..=3 {
-                    let (o, matched) = if t2[0] == "acc" { acc_case(&t2) } else { srv_case(&t2) };
-                    last = o;
-                    if matched {
-                        if let Some(f) = &first {
-                            timing_log(&format!("inconclusive attempts={attempt} case={} first={f}", t2.join(" ")));
-                        }
-                        return last;
-                    }
-                    if first.is_none() {
-                        first = Some(last.clone());
-                    }
-                }
-                timing_log(&format!("reproduced-3x case={} obs={last}", t2.join(" ")));
-                last
-            }
-            _ => "badcase".to_string(),
-        });
-        let _ = tx.send(match r {
-            Ok(s) => s,
-            Err(e) => {
-                let msg = if let Some(s) = e.downcast_ref::<String>() { s.clone() } else if let Some(s) = e.downcast_ref::<&str>() { (*s).to_string() } else { "?".to_string() };
-                let msg: String = msg.chars().map(|c| if c.is_ascii_graphic() { c } else { '_' }).take(80).collect();
-                format!("panic {msg}")
-            }
-        });
-    });
-    match rx.recv_timeout(CASE_DEADLINE) {
-        Ok(s) => s,
-        Err(_) => "hang".to_string(),
-    }
-}
-
-extern "C" {
-    fn dup(fd: i32) -> i32;
-    fn dup2(a: i32, b: i32) -> i32;
 }
 
 pub fn main_common() {
-    std::panic::set_hook(Box::new(|_| {}));
-    // servlin prints diagnostics ("ERROR HttpError::...") with println!; keep the observation
-    // channel clean: results go to the original stdout, everything else printed to fd 1 goes to
-    // stderr.
-    let saved = unsafe {
-        let s = dup(1);
-        dup2(2, 1);
-        s
-    };
-    use std::os::unix::io::FromRawFd;
-    let result_out = unsafe { std::fs::File::from_raw_fd(saved) };
-    safina::timer::start_timer_thread();
-    let stdin = std::io::stdin();
-    let lines: Vec<Vec<String>> = stdin.lock().lines().map(|l| l.unwrap().split_ascii_whitespace().map(str::to_string).collect()).collect();
-    let total = lines.len();
-    let results: Arc<Mutex<Vec<Option<String>>>> = Arc::new(Mutex::new(vec![None; total]));
-    // pool cases are independent and cheap: 8 workers; socket scenarios: 4 workers (own ports,
-    // own executors), which keeps timing honest on a loaded machine
-    let lines = Arc::new(lines);
-    let next = Arc::new(AtomicUsize::new(0));
-    let mut workers = Vec::new();
-    let nworkers: usize = std::env::var("SV_WORKERS").ok().and_then(|x| x.parse().ok()).unwrap_or(4);
-    for _ in 0..nworkers {
-        let lines = lines.clone();
-        let next = next.clone();
-        let results = results.clone();
-        workers.push(std::thread::spawn(move || loop {
-            let i = next.fetch_add(1, SeqCst);
-            if i >= lines.len() {
-                break;
-            }
-            if lines[i].is_empty() {
-                results.lock().unwrap()[i] = Some("badcase".to_string());
-                continue;
-            }
-            if lines[i][0] == "acc" && lines[i].iter().any(|t| t.starts_with('f')) {
-                continue; // changes the process-wide descriptor limit: run alone, below
-            }
-            let r = run_one(lines[i].clone());
-            results.lock().unwrap()[i] = Some(r);
-        }));
-    }
-    for w in workers {
-        let _ = w.join();
-    }
-    for i in 0..total {
-        if results.lock().unwrap()[i].is_none() {
-            let r = run_one(lines[i].clone());
-            results.lock().unwrap()[i] = Some(r);
-        }
-    }
-    let mut out = std::io::BufWriter::new(result_out);
-    for r in results.lock().unwrap().iter() {
-        writeln!(out, "{}", r.clone().unwrap_or_else(|| "missing".to_string())).unwrap();
-    }
+    main_with(full_lookup);
 }
